@@ -15,6 +15,19 @@ Bounded exhaustive exploration (full Cartesian products, no sampling).  Three fa
 
 All Hamiltonians / rates are affine in t and real-linear in the field, so the library's "exponential of the
 integrated Liouvillian" equals the mid-point value for both subdiv_limit settings and the oracle is exact.
+
+Alphabet (every domain simplest first; the full product is run):
+  eom {const, 1+2t (complex coefficients), -kappa a, Tavis-Cummings (-kappa a - i g sum tr(sigma^- rho)),
+       'full' (explicit t, all states, a, and a non-linear a|a|^2 term)}
+  systems {1: d=2 | 2: d=2, d=3 (with a time-dependent dissipator, complex non-diagonal coupling operator)
+           | 3: d=2, 3, 2 (third one couples through sigma_x)}
+  start_time {0, 1.0, -0.4} x dt {0.1, 0.25} x n {0, 1, (2,) 4} x baths {alpha=0, coupled} x record_all {T, F}
+  x epsrel {1e-6 | thorough: 1e-5, 1e-8} x initial field {generic | thorough: + 0} x subdiv_limit {default, None}
+
+Measured on a tree in which compute_dynamics_with_field hands the *old* grid time to the Heun stages (i.e. where
+the property holds; scratch copy, see final report): cross-method deviations <= 0.007 (quick) / 0.03 (thorough) of
+the bound 20*epsrel*n; exact families <= 1.4e-14 (bound 1e-10); Heun recursion on own states: 0.0 (bound 1e-11).
+Every mutant rule of RULES moves the field by >= 4e-5 where it is distinguishable at all (bound 1e-11 / 1e-10).
 """
 import functools
 import itertools
@@ -102,8 +115,12 @@ def oq_plain_system(nm):
 
 
 @functools.lru_cache(maxsize=None)
-def rho0_of(nm):
+def _rho0(nm):
     return M.generic_state(DIM[nm], TAG[nm] + 1)
+
+
+def rho0_of(nm):
+    return _rho0(nm).copy()          # the library never gets an array it could share between cases
 
 
 def bath_of(nm, kind):
@@ -120,7 +137,6 @@ def bath_of(nm, kind):
 
 
 EOMS = ["const", "lin_t", "decay", "tc", "full"]
-EXPLICIT_T = ("lin_t", "full")
 LIN_C0, LIN_C1 = (1.0 + 0.5j), (2.0 - 1.0j)
 CONST_C = 0.3 - 0.2j
 
